@@ -239,6 +239,8 @@ class History(RuleBasedStateMachine):
         try:
             res = self.comp.compile_code(src_arg) if mode == "none" else self.comp.compile_code(src_arg, opts)
         except BaseException as e:
+            if type(e).__name__ == "_CaseTimeout":
+                raise
             raise Violation("C11:compile_code-raises:" + type(e).__name__, {"error": repr(e)[:300], "log": self.log[-6:]})
         key = sha([srcs, vec])
         self.log.append({"request": key[:10], "mode": mode, "bits": bits, "head": srcs[""][:80]})
